@@ -3,14 +3,24 @@
 For rules, correlation rules and filters that load: x.to_dict() -> from_dict -> to_dict must be a fixed point
 and (for rules) convert to the same queries; the same through YAML.  After one pipeline transformation the
 serialisation must either fail with a Sigma error or produce a dict whose reload converts to exactly what the
-transformed rule converts to."""
+transformed rule converts to.
+
+Correspondence with the Lean model (`Model/Ser.lean`, theorems in `Props/C06.lean`): the detection section of
+every rule / filter document is sent to the driver (`ser.case`), which loads it with the model's
+`from_mapping` / `from_definition`, writes it with the model's `to_plain` and reloads its own output; the plain
+form, the error class, the condition spelling and the ISO dates are compared with `to_dict()` of the real
+objects.  For rules changed by a transformation the detection *object tree* the pipeline left behind
+(fields, modifier classes, `original_value` or its absence, nesting, OR-linking) is sent (`ser.obj`) and the
+model's `to_plain` of that tree is compared with the real one (same plain form, or both refuse).
+A disagreement is reported as drift; the deciding judgements are the ones on the real code above."""
 from __future__ import annotations
-import copy, random, uuid
-from .common import Verdict, outcome_of_exception
+import copy, datetime, math, random, re, uuid
+from .common import Verdict, cps, outcome_of_exception
 from . import c01, c12
+from .c03 import plain
 
 ID = "C06"
-GEN = ["Mods"]
+GEN = ["Mods", "B64", "Ser"]
 RULE = ("rule documents with all metadata fields (dates in both accepted spellings, tags, related, references, custom "
         "attributes, falsepositives, fields, level, status), all detection shapes and modifier chains of the C01 generator; "
         "correlation rules of all types with aliases, group-by, timespans, extended conditions; filters; and rule objects "
@@ -19,6 +29,8 @@ RULE = ("rule documents with all metadata fields (dates in both accepted spellin
 ASSUMPTIONS = [
     "queries are compared as text produced by the test backend (same backend, same configuration on both sides)",
     "PyYAML is used for the YAML leg (safe_dump / safe_load)",
+    "model correspondence: numbers travel as canonical renderings (int if integral, else repr of the float); values outside "
+    "str/int/finite float/bool/null, regular expressions Python's re rejects and query-expression placeholders are outside the model's domain (tagged, not judged)",
 ]
 
 
@@ -26,8 +38,8 @@ def meta(rnd, i):
     d = {"title": f"Rule {i}", "id": str(uuid.UUID(int=0x4000 + i)), "status": rnd.choice(["test", "stable", "experimental"]),
          "level": rnd.choice(["low", "medium", "high", "critical", "informational"]), "description": "desc " + "x" * rnd.randint(0, 5),
          "author": "a", "logsource": rnd.choice([{"category": "c"}, {"product": "p", "service": "s"}, {"category": "c", "product": "p", "definition": "d"}])}
-    if rnd.random() < 0.6: d["date"] = rnd.choice(["2024-01-31", "2024/01/31", "1999-12-01"])
-    if rnd.random() < 0.4: d["modified"] = rnd.choice(["2024-02-29", "2025/03/01"])
+    if rnd.random() < 0.6: d["date"] = rnd.choice(["2024-01-31", "2024/01/31", "1999-12-01", "2024/1/5", "2024/01/5", "2024/1/05", "3999/12/31", "1000-01-01"])
+    if rnd.random() < 0.4: d["modified"] = rnd.choice(["2024-02-29", "2025/03/01", "2025/3/1", "2023/11/9"])
     if rnd.random() < 0.6: d["tags"] = rnd.sample(["attack.t1059", "attack.execution", "cve.2024-1234", "tlp.red"], 2)
     if rnd.random() < 0.4: d["references"] = ["https://example.org/a", "https://example.org/b"]
     if rnd.random() < 0.4: d["related"] = [{"id": str(uuid.UUID(int=0x5000 + i)), "type": rnd.choice(["derived", "obsolete", "similar"])}]
@@ -71,6 +83,73 @@ def gen_filter(rnd, i):
             "filter": {"rules": rnd.choice(["any", ["rule_a"], [str(uuid.UUID(int=0x4001))]]), **dets, "condition": rnd.choice(["not flt", "flt", "not 1 of flt*"])}}
 
 
+SER_KEYS = ["f|re|i", "f|re|m|s", "g|re|ignorecase", "f|re|dotall|multiline", "|contains", "|re", "f|contains|all", "f|all", "h_1|endswith|cased",
+            "f|base64", "f|wide|base64offset|contains", "f|windash", "ip|cidr", "f|gt", "f|exists", "f|fieldref", "f|expand", "f|neq", "f"]
+SER_VALS = ["a", "a*b", "a\\*b", "x y", "", "%ph%", ["a"], ["a", "b"], [], 1, 2.0, 2.5, True, None, ["a", 1, None], "-x", "10.0.0.0/8", "a.*b"]
+
+
+def gen_ser_det(rnd, depth=0):
+    """detection shapes that stress from_definition / to_plain: nesting, one-element lists, keyword items, empty key"""
+    r = rnd.random()
+    if r < 0.35:
+        d = {}
+        for _ in range(rnd.choice([1, 1, 2, 3])):
+            k = rnd.choice(SER_KEYS)
+            d[k] = rnd.choice(SER_VALS) if "cidr" not in k else rnd.choice(["10.0.0.0/8", ["10.0.0.0/8", "192.168.0.0/16"], 5])
+        return d
+    if r < 0.45:
+        return {"": rnd.choice(["kw", ["k1", "k2"], ["k1"], 7, []])}
+    if r < 0.60:
+        return rnd.choice(["kw", ["k1", "k*2"], ["k1"], [], [1, "x", None], 5, True, [None, "a"]])
+    if r < 0.85 and depth < 2:
+        return [gen_ser_det(rnd, depth + 1) for _ in range(rnd.choice([1, 2, 2, 3]))]
+    return [{rnd.choice([k for k in SER_KEYS if "cidr" not in k]): rnd.choice(SER_VALS)}, rnd.choice(["kw", {"g": "x"}, ["a", "b"]])]
+
+
+# probes of the recorded finding classes (each is recognised by a predicate on the input, see `classify`)
+PROBES = [
+    {"sel": {"": "x", "f": "y"}},                                   # D62 empty key next to other keys
+    {"sel": {"": ["x", "z"], "g|contains": "y"}},                   # D62
+    {"sel": None}, {"sel": [None]}, {"sel": {"": None}}, {"sel": [{"f": "x"}, None]},   # D63 null keyword detection
+    {"sel": {"f|re|i": ["a", "c"], "f|re|ignorecase": "b"}},        # D64 alias keys collide, value list
+    {"sel": {"f|re|m": "a", "f|re|multiline": ["b", "c"]}},         # D64
+    {"sel": [["a"]]}, {"sel": [{"": "a"}]}, {"sel": [[["a"], ["b"]]]} , {"sel": [["a"], ["b"]]},  # D65 / object differs only
+    {"sel": {"f|re|i": "a", "f|re|ignorecase": "b"}},               # alias keys collide, scalars: merged under |all (same meaning)
+]
+
+T2 = [
+    ({"sel": {"f": "abc"}}, {"type": "regex"}),
+    ({"sel": {"f": ["abc", "x*"]}}, {"type": "regex", "method": "ignore_case_flag"}),
+    ({"sel": {"f": "a*c", "g|contains": "k"}}, {"type": "regex", "method": "plain"}),
+    ({"sel": {"f|contains": "abc"}}, {"type": "regex"}),
+    ({"sel": {"f|base64": "a"}}, {"type": "field_name_mapping", "mapping": {"f": ["g", "h"]}}),
+    ({"sel": {"f|wide": "ab"}}, {"type": "field_name_mapping", "mapping": {"f": ["g", "h"]}}),
+    ({"sel": {"f|utf16be": "ab"}}, {"type": "field_name_mapping", "mapping": {"f": ["g", "h"]}}),
+    ({"sel": {"f|minute": 5}}, {"type": "field_name_mapping", "mapping": {"f": ["g", "h"]}}),
+    ({"sel": {"f|contains|all": ["a", "b"]}}, {"type": "field_name_mapping", "mapping": {"f": ["g", "h"]}}),
+    ({"sel": {"f|re|i": "a.*"}}, {"type": "field_name_mapping", "mapping": {"f": ["g", "h"]}}),
+    ({"sel": {"f|windash": "-a"}}, {"type": "field_name_mapping", "mapping": {"f": ["g", "h"]}}),
+    ({"sel": {"f|cidr": "10.0.0.0/8"}}, {"type": "field_name_mapping", "mapping": {"f": ["g", "h"]}}),
+    ({"sel": {"f|exists": True}}, {"type": "field_name_mapping", "mapping": {"f": ["g", "h"]}}),
+    ({"sel": {"f": "x", "g": "y"}}, {"type": "field_name_mapping", "mapping": {"f": ["g", "h"]}}),
+    ({"sel": {"f": "x", "g": "y"}}, {"type": "field_name_mapping", "mapping": {"f": "a|contains"}}),
+    ({"sel": {"f": "x", "g": "y"}}, {"type": "field_name_mapping", "mapping": {"f": ""}}),
+    ({"sel": {"f|base64": "x", "g|contains": "y"}}, {"type": "field_name_suffix", "suffix": ".s"}),
+    ({"sel": {"f": "5"}}, {"type": "convert_type", "target_type": "num"}),
+    ({"sel": {"f": "x"}}, {"type": "set_value", "value": None}),
+    ({"sel": {"f": "x"}}, {"type": "set_value", "value": "a*b"}),
+    ({"sel": {"f|all": ["abc", "w"]}}, {"type": "map_string", "mapping": {"abc": ["y", "z"]}}),
+    ({"sel": {"Hashes": "MD5=987B65CD9B9F4E9A1AFD8F8B48CF64A7"}}, {"type": "hashes_fields", "valid_hash_algos": ["MD5"], "field_prefix": "File"}),
+    ({"sel": {"f|expand": "%x%"}}, {"type": "wildcard_placeholders"}),
+    ({"sel": {"f|fieldref": "f"}}, {"type": "field_name_mapping", "mapping": {"f": "g"}}),
+    ({"sel": ["kw1", "kw2"]}, {"kind": "kw2field", "scope": None}),
+]
+
+
+def t_yaml(t):
+    return t["yaml"] if "yaml" in t else c12.t_yaml(t)
+
+
 def gen_cases(tier, seed, gen, effort):
     rnd = random.Random(seed * 9431 + 6)
     rr = random.Random(seed * 9431 + 7)
@@ -87,6 +166,13 @@ def gen_cases(tier, seed, gen, effort):
                 doc["detection"][names[0]] = {"bs": rnd.choice(["p\\\\*q", "p\\\\\\\\q", "end\\\\?"])}      # backslash before wildcard / backslash (finding D3)
             cond = rnd.choice({1: c01.CONDS_1, 2: c01.CONDS_2, 3: c01.CONDS_3}[k])
             doc["detection"]["condition"] = cond if rnd.random() < 0.85 else [cond, rnd.choice({1: c01.CONDS_1, 2: c01.CONDS_2, 3: c01.CONDS_3}[k])]
+            if rnd.random() < 0.25:       # shapes of the serialisation model
+                doc["detection"] = {nm: gen_ser_det(rnd) for nm in names}
+                doc["detection"]["condition"] = cond if rnd.random() < 0.7 else [cond]
+            if rnd.random() < 0.02:
+                doc["detection"] = {**copy.deepcopy(rnd.choice(PROBES)), "condition": rnd.choice(["sel", ["sel"], ["sel", "not sel"]])}
+            if rnd.random() < 0.01:
+                doc["date"] = rnd.choice([{"__date__": [2024, 1, 31]}, {"__date__": [2024, 1, 31, 10, 0]}])   # YAML date / timestamp objects
             cases.append({"kind": "rule", "doc": doc})
         elif r < 0.75:
             cases.append({"kind": "corr", "doc": gen_corr(rnd, i)})
@@ -98,6 +184,11 @@ def gen_cases(tier, seed, gen, effort):
             doc["logsource"] = rule["logsource"]
             doc["detection"] = {**rule["dets"], "condition": rule["cond"]}
             cases.append({"kind": "transformed", "doc": doc, "t": c12.gen_transformation(rr)})
+            if rr.random() < 0.15:
+                dets, ty = rr.choice(T2)
+                doc = meta(rnd, i)
+                doc["detection"] = {**copy.deepcopy(dets), "condition": "sel"}
+                cases.append({"kind": "transformed", "doc": doc, "t": ty if "kind" in ty else {"yaml": ty}})
     return cases, False
 
 
@@ -110,6 +201,110 @@ def convert(rule_obj):
         return "ERR:" + outcome_of_exception(e)
 
 
+def thaw(x):
+    """documents travel as JSON: YAML date / timestamp objects are written as {"__date__": [...]}"""
+    if isinstance(x, dict):
+        if set(x) == {"__date__"}:
+            a = x["__date__"]
+            return datetime.date(*a) if len(a) == 3 else datetime.datetime(*a)
+        return {k: thaw(v) for k, v in x.items()}
+    if isinstance(x, list):
+        return [thaw(v) for v in x]
+    return x
+
+
+class OutOfDomain(Exception):
+    pass
+
+
+def pv(v):
+    if isinstance(v, float) and not math.isfinite(v):
+        raise OutOfDomain("non-finite float")
+    if v is None or isinstance(v, (bool, int, float, str)):
+        return plain(v)
+    raise OutOfDomain(f"value of type {type(v).__name__}")
+
+
+def pvals(v):
+    return {"many": [pv(x) for x in v]} if isinstance(v, list) else {"one": pv(v)}
+
+
+def pdef(d):
+    """a detection definition (plain Python) in the canonical JSON of the driver"""
+    if isinstance(d, dict):
+        for k in d:
+            if not isinstance(k, str):
+                raise OutOfDomain("key that is no string")
+        return {"map": [[cps(k), pvals(v)] for k, v in d.items()]}
+    if isinstance(d, list):
+        return {"list": [pdef(e) for e in d]}
+    return {"val": pv(d)}
+
+
+def pcond(c):
+    if isinstance(c, list):
+        if not all(isinstance(x, str) for x in c): raise OutOfDomain("condition that is no string")
+        return {"many": [cps(x) for x in c]}
+    if not isinstance(c, str): raise OutOfDomain("condition that is no string")
+    return {"one": cps(c)}
+
+
+def psection(sec, skip=("condition",)):
+    """detection section -> (dets, cond) in driver JSON"""
+    return [[cps(k), pdef(v)] for k, v in sec.items() if k not in skip], (pcond(sec["condition"]) if "condition" in sec else None)
+
+
+def sstr_parts(s):
+    from sigma.types import SpecialChars, Placeholder
+    out = []
+    for part in s.s:
+        if isinstance(part, str): out.extend(cps(part))
+        elif part == SpecialChars.WILDCARD_MULTI: out.append("*")
+        elif part == SpecialChars.WILDCARD_SINGLE: out.append("?")
+        elif isinstance(part, Placeholder): out.append({"ph": cps(part.name)})
+        else: raise OutOfDomain("string part")
+    return out
+
+
+def val_json(v):
+    import sigma.types as T
+    if isinstance(v, T.SigmaString):
+        return {"t": "str", "cased": isinstance(v, T.SigmaCasedString), "s": sstr_parts(v)}
+    if isinstance(v, T.SigmaTimestampPart):
+        return {"t": "ts", "unit": cps(v.timestamp_part.name.lower()), "n": plain(v.number)["num"]}
+    if isinstance(v, T.SigmaNumber): return {"t": "num", "n": plain(v.number)["num"]}
+    if isinstance(v, T.SigmaBool): return {"t": "bool", "b": v.boolean}
+    if isinstance(v, T.SigmaNull): return {"t": "null"}
+    if isinstance(v, T.SigmaRegularExpression): return {"t": "re", "src": cps(v.regexp.to_plain())}
+    if isinstance(v, T.SigmaCIDRExpression): return {"t": "cidr", "text": cps(v.cidr)}
+    if isinstance(v, T.SigmaCompareExpression): return {"t": "cmp", "op": cps(v.op.name.lower()), "n": plain(v.number.number)["num"]}
+    if isinstance(v, T.SigmaFieldReference): return {"t": "ref", "f": cps(v.field), "sw": v.starts_with, "ew": v.ends_with}
+    if isinstance(v, T.SigmaExists): return {"t": "exists", "b": v.exists}
+    if isinstance(v, T.SigmaExpansion): return {"t": "exp", "vs": [val_json(x) for x in v.values]}
+    raise OutOfDomain(f"value type {type(v).__name__}")
+
+
+def obj_tree(det):
+    """the detection object tree as the pipeline left it: what SigmaDetection.to_plain looks at"""
+    from sigma.rule import SigmaDetection
+    from sigma.conditions import ConditionOR
+    from sigma.modifiers import reverse_modifier_mapping
+    if isinstance(det, SigmaDetection):
+        return {"node": [obj_tree(c) for c in det.detection_items], "or": det.item_linking is ConditionOR}
+    return {"item": {"field": None if det.field is None else cps(det.field),
+                     "mods": [cps(reverse_modifier_mapping[m.__name__]) for m in det.modifiers],
+                     "orig": None if det.original_value is None else [val_json(v) for v in det.original_value]}}
+
+
+def plain_section(sec, skip=("condition",)):
+    """to_dict() output of a detection section in driver JSON (None when it holds non-plain objects)"""
+    try:
+        dets, cond = psection(sec, skip)
+        return {"dets": dets, "cond": cond}
+    except OutOfDomain as e:
+        return {"junk": str(e)}
+
+
 def run_impl(case):
     import yaml
     from sigma.rule import SigmaRule
@@ -117,14 +312,15 @@ def run_impl(case):
     from sigma.filters import SigmaFilter
     from sigma.processing.pipeline import ProcessingPipeline
     cls = {"rule": SigmaRule, "corr": SigmaCorrelationRule, "filter": SigmaFilter, "transformed": SigmaRule}[case["kind"]]
+    srcdoc = thaw(case["doc"])
     try:
-        obj = cls.from_dict(copy.deepcopy(case["doc"]))
+        obj = cls.from_dict(copy.deepcopy(srcdoc))
     except Exception as e:
         return {"outcome": "load:" + outcome_of_exception(e), "msg": str(e)[:120]}
     out = {"outcome": "ok"}
     try:
         if case["kind"] == "transformed":
-            pl = ProcessingPipeline.from_dict({"name": "p", "priority": 1, "transformations": [c12.t_yaml(case["t"])]})
+            pl = ProcessingPipeline.from_dict({"name": "p", "priority": 1, "transformations": [t_yaml(case["t"])]})
             pl.apply(obj)
             from sigma.backends.test import TextQueryTestBackend
             from sigma.processing.pipeline import ProcessingPipeline as PP
@@ -135,11 +331,28 @@ def run_impl(case):
                 out["q_obj"] = B0().convert(SigmaCollection([copy.deepcopy(obj)], resolve_references=False))
             except Exception as e:
                 out["q_obj"] = "ERR:" + outcome_of_exception(e)
+            try:
+                out["tree"] = [[cps(n), obj_tree(d)] for n, d in obj.detection.detections.items()]
+            except OutOfDomain as e:
+                out["tree_ood"] = str(e)
         d1 = obj.to_dict()
     except Exception as e:
         out["todict"] = outcome_of_exception(e)
         out["msg"] = str(e)[:120]
         return out
+    try:
+        d1b = obj.to_dict()
+        out["rewrite_same"] = d1 == d1b
+        if d1 != d1b:
+            out["rewrite_diff"] = {k: (d1.get(k), d1b.get(k)) for k in set(d1) | set(d1b) if d1.get(k) != d1b.get(k)}
+    except Exception as e:
+        out["rewrite_same"] = False
+        out["rewrite_diff"] = outcome_of_exception(e)
+    if case["kind"] in ("rule", "transformed"):
+        out["plain"] = plain_section(d1["detection"])
+        out["dates"] = [d1.get("date"), d1.get("modified")]
+    elif case["kind"] == "filter":
+        out["plain"] = plain_section(d1["filter"], skip=("condition", "rules"))
     try:
         obj2 = cls.from_dict(copy.deepcopy(d1))
         d2 = obj2.to_dict()
@@ -150,7 +363,7 @@ def run_impl(case):
         obj3 = cls.from_dict(yaml.safe_load(y))
         out["yaml_fixed_point"] = obj3.to_dict() == d1
         if case["kind"] == "rule":
-            out["q1"], out["q2"], out["q3"] = convert(cls.from_dict(copy.deepcopy(case["doc"]))), convert(obj2), convert(obj3)
+            out["q1"], out["q2"], out["q3"] = convert(cls.from_dict(copy.deepcopy(srcdoc))), convert(obj2), convert(obj3)
         if case["kind"] == "transformed":
             from sigma.backends.test import TextQueryTestBackend
             from sigma.processing.pipeline import ProcessingPipeline as PP
@@ -167,8 +380,34 @@ def run_impl(case):
     return out
 
 
+def word_chars(x):
+    text = repr(x)
+    return cps("".join(sorted({c for c in text if ord(c) > 127 and re.match(r"\w", c)})))
+
+
 def make_request(case, impl, gen):
-    return {"op": "ping"}
+    doc = case["doc"]
+    try:
+        if case["kind"] == "transformed":
+            if "tree" not in impl:
+                return None
+            return {"op": "ser.obj", "dets": impl["tree"]}
+        if case["kind"] in ("rule", "filter"):
+            sec = doc.get("detection") if case["kind"] == "rule" else doc.get("filter")
+            if not isinstance(sec, dict):
+                return None
+            dets, cond = psection(sec, ("condition",) if case["kind"] == "rule" else ("condition", "rules"))
+            r = {"op": "ser.case", "dets": dets, "wordChars": word_chars(sec),
+                 "dates": [cps(doc[k]) if isinstance(doc.get(k), str) else [] for k in ("date", "modified")]}
+            if cond is not None:
+                r["cond"] = cond
+            g = gen.get("B64") if gen else None
+            if g:
+                r["tables"] = {"starts": g["starts"], "cuts": g["cuts"]}
+            return r
+    except OutOfDomain:
+        return None
+    return None
 
 
 def _d3(doc):
@@ -176,13 +415,150 @@ def _d3(doc):
     return re.search(r"\\\\\\\\[*?\\\\]|\\\\\\\\'|\\\\\\\\\"", repr(doc.get("detection", doc.get("filter")))) is not None
 
 
+# ------------------------------------------------------------------ classes of the recorded findings (predicates on the input)
+ALIASES = {"i": "ignorecase", "m": "multiline", "dotall": "s"}
+REAPPLIED = {"base64", "wide", "utf16", "utf16le", "utf16be", "minute", "hour", "day", "week", "month", "year"}
+
+
+def canon_key(k):
+    f, *ms = k.split("|")
+    return "|".join([f] + [ALIASES.get(m, m) for m in ms])
+
+
+def walk_defs(d):
+    """the definition and, for a list of definitions (not a list of plain values), its elements"""
+    yield d
+    if isinstance(d, list) and any(isinstance(e, (dict, list)) for e in d):
+        for e in d:
+            yield from walk_defs(e)
+
+
+def writes_scalar(d):
+    """definitions whose detection to_plain writes as one bare scalar"""
+    if isinstance(d, dict):
+        return list(d) == [""] and (not isinstance(d[""], list) or len(d[""]) == 1)
+    if isinstance(d, list):
+        return len(d) == 1 and not isinstance(d[0], (dict, list))
+    return True
+
+
+def classify(case):
+    """the finding class (id in known_findings.json) the input belongs to, if any"""
+    doc = case["doc"]
+    if _d3(doc):
+        return "D3"
+    if case["kind"] == "transformed":
+        ty = t_yaml(case["t"])
+        keys = [k for d in doc["detection"].values() for x in walk_defs(d) if isinstance(x, dict) for k in x]
+        if ty.get("type") == "regex" and any("|" not in k for k in keys):
+            return "D61"       # a value transformation leaves a non-plain value type in an item without modifiers
+        if ty.get("type") == "field_name_mapping":
+            targets = [t for v in ty["mapping"].values() for t in (v if isinstance(v, list) else [v])]
+            if any(isinstance(v, list) and len(v) > 1 for v in ty["mapping"].values()) and any(set(k.split("|")[1:]) & REAPPLIED for k in keys):
+                return "D60"   # one-to-many field mapping writes the modified values under the modifier key
+            if any(t == "" or "|" in t for t in targets):
+                return "D67"   # target field name that cannot be written as a key
+            many = {f for f, v in ty["mapping"].items() if isinstance(v, list) and len(v) > 1}
+            for d in doc["detection"].values():
+                for x in walk_defs(d):
+                    if isinstance(x, dict) and len(x) > 1 and all(k.split("|")[0] in many for k in x):
+                        return "D68"   # every item of an AND-linked map is replaced by an OR-linked detection
+        return None
+    if case["kind"] != "rule":
+        return None
+    if isinstance(doc.get("date"), dict) and len(doc["date"].get("__date__", [])) > 3:
+        return "D66"           # YAML timestamp as rule date
+    for d in doc["detection"].values():
+        for x in walk_defs(d):
+            if x is None or x == [None] or x == {"": None} or x == {"": [None]}:
+                return "D63"   # keyword detection that is a single null
+            if isinstance(x, dict):
+                if "" in x and len(x) > 1:
+                    return "D62"   # empty key next to other keys
+                ck = [canon_key(k) for k in x]
+                dup = {k for k in ck if ck.count(k) > 1}
+                if dup and any(isinstance(v, list) and len(v) > 1 for k, v in x.items() if canon_key(k) in dup):
+                    return "D64"   # alias spellings of one key, value list
+            if isinstance(x, list) and len(x) == 1 and isinstance(x[0], (dict, list)) and writes_scalar(x[0]):
+                return "D65"   # list with one element that is written as a bare scalar
+    return None
+
+
+SER_ERR = {"refused": ("sigma:SigmaValueError",), "empty": ("sigma:SigmaDetectionError",), "condition": ("sigma:SigmaConditionError",)}
+
+
+def correspondence(case, impl, reply):
+    """model vs implementation on the observables of the serialisation; -> (None | drift text, tags)"""
+    if reply is None:
+        return None, ["model:not-sent"]
+    kind = case["kind"]
+    if kind == "transformed":
+        if "serErr" in reply:
+            if "todict" in impl:
+                ok = impl["todict"] in SER_ERR.get(reply["serErr"], ()) or (reply["serErr"] == "junk")
+                return (None if ok else f"model refuses with {reply['serErr']}, implementation raised {impl['todict']}"), ["model:refuses"]
+            if reply["serErr"] == "junk" and "junk" in impl.get("plain", {}):
+                return None, ["model:junk"]
+            return f"model: to_plain fails ({reply['serErr']}), implementation wrote {impl.get('plain')}", ["model:refuses"]
+        if "todict" in impl:
+            return f"model writes {reply['dets']}, implementation raised {impl['todict']}", ["model:writes"]
+        if impl["plain"].get("dets") != reply["dets"]:
+            return f"plain form after the transformation: model {reply['dets']} implementation {impl['plain']}", ["model:writes"]
+        return None, ["model:writes"]
+    # rule / filter documents
+    io = impl["outcome"]
+    if "loadErr" in reply:
+        if io.startswith("load:sigma:"):
+            return None, ["model:load-error"]
+        return f"model rejects the document ({reply['loadErr']}), implementation: {io}", ["model:load-error"]
+    if io.startswith("load:"):
+        if io in ("load:sigma:SigmaRegularExpressionError",) or "ondition" in io or "CIDR" in str(impl.get("msg")):
+            return None, ["unjudged:outside-model"]       # regular expression / CIDR syntax and the condition grammar are not part of this model
+        return f"implementation rejects the document ({io}: {impl.get('msg')}), model loads it", ["model:loads"]
+    if "serErr" in reply:
+        if "todict" in impl and impl["todict"] in SER_ERR.get(reply["serErr"], ()):
+            return None, ["model:write-error"]
+        return f"model: to_dict fails ({reply['serErr']}), implementation: {impl.get('todict', 'writes ' + str(impl.get('plain')))}", ["model:write-error"]
+    if "todict" in impl:
+        return f"model writes {reply['plain']}, implementation raised {impl['todict']}", ["model:writes"]
+    if impl["plain"] != reply["plain"]:
+        return f"dict form: model {reply['plain']} implementation {impl['plain']}", ["model:writes"]
+    if kind == "rule":
+        want = [cps(x) if isinstance(x, str) else None for x in impl["dates"]]
+        got = [d if d else None for d in reply["dates"]]
+        src = [case["doc"].get(k) for k in ("date", "modified")]
+        for w, g, s0 in zip(want, got, src):
+            if isinstance(s0, str) and w != g:
+                return f"date {s0!r}: model writes {g}, implementation {w}", ["model:writes"]
+    if "fixed_point" in impl and isinstance(reply.get("fixed"), bool) and reply["fixed"] != impl["fixed_point"] and kind == "rule":
+        return f"second write: model fixed point {reply['fixed']}, implementation {impl['fixed_point']} ({impl.get('diff')})", ["model:writes"]
+    tags = ["model:writes", "model:good" if reply.get("good") else "model:outside-theorem"]
+    if reply.get("good") and classify(case) in ("D62", "D63", "D64", "D65"):
+        return f"the input is in finding class {classify(case)} but satisfies the hypotheses of the round-trip theorem", tags
+    return None, tags
+
+
 def judge(case, impl, reply):
+    v = decide(case, impl)
+    drift, mtags = correspondence(case, impl, reply)
+    v.tags = tuple(v.tags) + tuple(mtags)
+    if v.status == "ok" and drift:
+        return Verdict("drift", drift + f" :: {case['doc'].get('detection', case['doc'].get('filter'))} {case.get('t')}", v.nontrivial, v.key, tags=v.tags)
+    if v.status == "ok" and reply is not None and case["kind"] == "rule" and impl["outcome"] == "ok" and reply.get("good") is False and not classify(case) \
+            and reply.get("fixed") is not True:
+        # outside the class of the round-trip theorem, the model itself predicts a failure, yet the code is fine: model drift
+        return Verdict("drift", f"model predicts a failing round trip, the implementation is fine :: {case['doc'].get('detection')}", v.nontrivial, v.key, tags=v.tags)
+    return v
+
+
+def decide(case, impl):
+    """the deciding judgements: on the real code only"""
     io = impl["outcome"]
     doc = case["doc"]
     key = (case["kind"], doc, case.get("t"))
     nt = True
     tags = [f"kind:{case['kind']}", f"impl:{io.split(':')[0]}"]
-    fid = "D3" if _d3(doc) else None
+    fid = classify(case)
     if io.startswith("load:"):
         if "other:" in io:
             return Verdict("violation", f"loading {case['kind']} document raised {io}: {impl.get('msg')} :: {doc}", nt, key, tags=tuple(tags))
@@ -191,11 +567,13 @@ def judge(case, impl, reply):
         if impl["todict"].startswith("sigma:") and case["kind"] == "transformed":
             return Verdict("ok", "", nt, key, tags=tuple(tags + ["refused"]))
         return Verdict("violation", f"to_dict of a loaded {case['kind']} raised {impl['todict']}: {impl.get('msg')} :: {doc.get('detection', doc)} {case.get('t')}", nt, key, finding=fid, tags=tuple(tags))
+    if impl.get("rewrite_same") is False:
+        return Verdict("violation", f"two consecutive to_dict() calls on the same {case['kind']} object give different dicts: {str(impl.get('rewrite_diff'))[:200]} :: {doc.get('detection', doc)} {case.get('t')}", nt, key, tags=tuple(tags))
     if "reload" in impl:
         return Verdict("violation", f"the serialised form of {case['kind']} does not load again: {impl['reload']} {impl.get('msg')} :: {doc.get('detection', doc)} {case.get('t')}", nt, key, finding=fid, tags=tuple(tags))
     if case["kind"] == "transformed":
         if impl["q_obj"] != impl["q_reload"] and not (isinstance(impl["q_obj"], str) and isinstance(impl["q_reload"], str)):
-            return Verdict("violation", (f"after {c12.t_yaml(case['t'])} the rule serialises without error but the reloaded rule converts to {impl['q_reload']} "
+            return Verdict("violation", (f"after {t_yaml(case['t'])} the rule serialises without error but the reloaded rule converts to {impl['q_reload']} "
                                          f"while the transformed rule converts to {impl['q_obj']} :: {doc['detection']}"), nt, key, finding=fid, tags=tuple(tags))
         return Verdict("ok", "", nt, key, tags=tuple(tags + ["serialised"]))
     if not impl["fixed_point"]:
